@@ -219,6 +219,10 @@ def judge_table(ctx, tab, cfg, path, label, rng):
         elif isinstance(v, (int, np.integer)):
             if not (isinstance(r, (int, np.integer)) and not isinstance(r, bool) and int(r) == int(v)):
                 ctx.violation("header", f"{label}: header value {kw} = {v!r} is read back as {r!r}", dict(wit, keyword=kw))
+        elif v is None:
+            # an absent Optional section is written as a card with an undefined value
+            if not (r is None or isinstance(r, fits.card.Undefined)):
+                ctx.violation("header", f"{label}: header value {kw} = None is read back as {r!r}", dict(wit, keyword=kw))
         else:
             if not (isinstance(r, str) and r == str(v)):
                 ctx.violation("header", f"{label}: header value {kw} = {v!r} is read back as {r!r}", dict(wit, keyword=kw))
@@ -303,6 +307,19 @@ def judge_table(ctx, tab, cfg, path, label, rng):
         try:
             a, b = get_attr_path(cfg, parts), get_attr_path(c2, parts)
         except AttributeError:
+            # a section that is None on one side: it must be None on both
+            try:
+                sa, sb = get_attr_path(cfg, parts[:-1]), get_attr_path(c2, parts[:-1])
+            except AttributeError:
+                continue
+            if (sa is None) != (sb is None):
+                ctx.violation("reconstruct", f"{label}: config_from_fits gives {'.'.join(parts[:-1])} = {sb!r}, the run used {sa!r}", dict(wit, field=".".join(parts[:-1])))
+            continue
+        if a is None or b is None or hasattr(a, "model_dump") or hasattr(b, "model_dump"):
+            # the path names a whole Optional section (seen as None in some file): None-ness must agree,
+            # its fields are compared through their own paths
+            if (a is None) != (b is None):
+                ctx.violation("reconstruct", f"{label}: config_from_fits gives {'.'.join(parts)} = {b!r}, the run used {a!r}", dict(wit, field=".".join(parts)))
             continue
         same = a == b or (isinstance(a, float) and isinstance(b, (int, float)) and parts[-1] in ANGLE_FIELDS and abs(a - b) <= 4 * 2.0**-52 * abs(a)) or (isinstance(a, (int, float)) and isinstance(b, (int, float)) and not isinstance(a, bool) and a == b)
         if same:
@@ -388,6 +405,17 @@ def run(ctx):
             ctx.distinct.add(("syn", repr(cfg.model_dump())[:3000], m))
             if i < 2:
                 ctx.sample({"table": "synthetic", "config": cfg.model_dump(), "rows": m, "columns": tab.colnames})
+        # a configuration without an ionosphere block (Optional; the radio stage accepts None)
+        from nuspacesim.config import Simulation as _S2
+
+        for spec_ in (_S2.MonoSpectrum(log_nu_energy=9.0), _S2.PowerSpectrum(index=2.0, lower_bound=7.0, upper_bound=11.0)):
+            cfg = NssConfig()
+            cfg.simulation.ionosphere = None
+            cfg.simulation.spectrum = spec_
+            tab = results_table.init(cfg)
+            tab["beta_rad"] = np.arange(3.0)
+            ctx.count("none-section")
+            judge_table(ctx, tab, cfg, os.path.join(work, "t.fits"), f"configuration without an ionosphere block (spectrum {spec_.id})", rng)
         # the two fixed witnesses of the open finding (so that it is reported on every run)
         for tec in (0.30000000000000004, 1.2345678901234567e-05):
             cfg = NssConfig()
@@ -515,7 +543,7 @@ def run(ctx):
             ctx.distinct.add(("cli", tuple(argv), os.path.basename(out)))
     finally:
         shutil.rmtree(work, ignore_errors=True)
-    for m in ("empty-runs", "numpy-scalars", "columns", "header", "complete", "reconstruct", "real-runs", "cli-run"):
+    for m in ("none-section", "empty-runs", "numpy-scalars", "columns", "header", "complete", "reconstruct", "real-runs", "cli-run"):
         ctx.require(m)
     return ctx.finish(
         rule="tables = results_table.init(config) + synthetic columns of every stored dtype (float64, float32, int64, 2-D EFields, Time) for seeded configurations (ASCII strings, finite numbers, both spectrum types, all cloud variants, lat != lon), one third with 17-significant-digit floats and two thirds with short-text floats (for which everything must be exact), plus tables returned by real small compute() runs in both modes; a case is a distinct (configuration, table)",
